@@ -57,6 +57,10 @@ theorem tsInv_step (s : St) (st : Step) (h : TsInv s) : TsInv (exec s st) := by
     exact ⟨fun r hr => h1 r (by
       simp only [exec] at hr
       rwa [allRecs_updNonLast id (fun sg => { sg with walFile := false }) (fun _ => rfl)] at hr), h2⟩
+  | resume bid ver =>
+    refine ⟨h1, ?_⟩
+    show min ver (s.nextTs - 1) < s.nextTs
+    omega
   | vCreate => exact ⟨h1, h2⟩
   | vAppend k => exact ⟨h1, h2⟩
   | headLog => exact ⟨h1, h2⟩
